@@ -68,6 +68,10 @@ func (r *ref) wfUpdate(u update) bool {
 		if prev < 1 {
 			prev = 1
 		}
+		// an overwrite carries a term at least as new as everything it truncates
+		if u.Ss.Index == 0 && u.I0 <= n.last() && prev < n.lastTerm() {
+			prev = n.lastTerm()
+		}
 		for _, e := range u.Ents {
 			if e.Term < prev || e.Len < 8 || e.Len > maxLen {
 				return false
